@@ -9,6 +9,7 @@ CONSTANTS
  DelayBeforeStart = TRUE
  CancelInPlace = FALSE
  ForgetDiscarded = TRUE
+ TolerantCompletion = TRUE
  DropLateBoxes = FALSE
  Record = FALSE
 INVARIANT RunAtMostOnce
